@@ -20,7 +20,8 @@ def schema_for(seed: int, family: str, idx: int) -> dict:
         return c17_gen.gen_defaults_schema(rng, idx)
     if family == "latename":
         return c17_gen.gen_latename_schema(rng, idx)
-    return c17_gen.gen_identity_schema(rng, idx)
+    d = c17_gen.IDENTITY_TEMPLATES_DISTINCT
+    return c17_gen.gen_identity_schema(rng, idx, d[idx] if idx < len(d) else None)
 
 
 def run_one(schema: dict, rng, exercise: int) -> dict:
